@@ -203,7 +203,7 @@ func c15Workload(g *hx.Gen) string {
 	}
 	self := g.Chance(0.5)
 	minLen := g.Pick(100, 120, 150, 200)
-	minIDm := g.Pick(800, 850, 900, 940)
+	minIDm := g.Pick(750, 800, 850, 900, 940)
 	target := g.Letters("acgt", L)
 	var query []byte
 	if !self {
@@ -299,9 +299,26 @@ func c15Workload(g *hx.Gen) string {
 	return fmt.Sprintf("pw %s %d %d %d %s %s %s", hx.B(self), minLen, minIDm, mem, ps, string(target), q)
 }
 
+// self comparison where Optimise falls back to very short seeds (k=4, n=12, e=2, TubeOffset=34):
+// the tube next to the main-diagonal tube starts (L mod 34) diagonals from the main diagonal, so
+// sweeping L sweeps how close filter hits come to the trivial self match
+func c15NearDiagonal(g *hx.Gen, r int) string {
+	L := 34*g.Range(58, 105) + r
+	return fmt.Sprintf("pw 1 100 %d 64 - %s -", g.Pick(700, 700, 720), string(g.Letters("acgt", L)))
+}
+
 func c15Gen(g *hx.Gen) {
 	n := g.Scale(40, 2000)
 	for i := 0; i < n && !g.Done(); i++ {
+		if i%5 == 4 {
+			res := []int{29, 30, 31, 32, 33, 0, 28, 1}
+			r := res[(i/5)%len(res)]
+			if g.Thorough() {
+				r = (i / 5) % 34
+			}
+			g.Case(c15NearDiagonal(g, r))
+			continue
+		}
 		g.Case(c15Workload(g))
 	}
 }
